@@ -90,6 +90,7 @@ func spec_asReturnStmt(n ast.Node) *ast.ReturnStmt { r, _ := n.(*ast.ReturnStmt)
 
 //@ func funcResultsResolver.resultsFromAstAt
 //@   trusted
+//@   props C14 C05
 //@   fnvalue-calllog 7
 //@   lit 6 requires yield != nil
 //@   lit 6 ensures spec_asReturnStmt(node) != nil ==> len(spec_calls()) == len(old(spec_calls()))+1
